@@ -144,6 +144,9 @@ package exif2
 //@   modifies ir.buffer.len, ir.buffer.tag
 //@   ensures ir.buffer.len <= 84 && ir.buffer.len >= old(ir.buffer.len) && ir.buffer.len <= old(ir.buffer.len) + 1
 //@   ensures [C03] sortedTags(ir.buffer)
+// every out-of-line tag that lies ahead of the reader is queued while there is room (KNOWN FINDING: a tag whose value offset
+// equals that of a queued tag - two entries sharing one value, legal in TIFF - is dropped)
+//@   ensures [C03] t.ValueOffset >= ir.po && old(ir.buffer.len) < 84 ==> ir.buffer.len == old(ir.buffer.len) + 1
 //@   loop 0 invariant 0 <= i && i <= int(b.len) && b == ir.buffer && b.len == old(ir.buffer.len)
 //@   loop 0 invariant forall k int :: i <= k && k < int(b.len) ==> t.ValueOffset <= b.tag[k].ValueOffset
 //@   loop 0 invariant sortedTags(b)
